@@ -30,6 +30,7 @@ type World struct {
 	sortCache   map[types.Type]string
 	heapSorts   map[string]string // heap name -> sort
 	axioms      []string
+	fieldOfHeap map[string]fieldRef // field heaps back to their (struct type, field index)
 	boxDeclared map[string]bool
 	heapTypes   map[string]heapTypeInfo
 	heapElem    map[string]heapElemInfo
@@ -328,6 +329,10 @@ func (w *World) FieldHeap(structT types.Type, idx int) string {
 	f := info.st.Field(idx)
 	name := fmt.Sprintf("H_%s_%s", info.tname, f.Name())
 	w.heapElem[name] = heapElemInfo{t: f.Type(), levels: 1}
+	if w.fieldOfHeap == nil {
+		w.fieldOfHeap = map[string]fieldRef{}
+	}
+	w.fieldOfHeap[name] = fieldRef{structT, idx}
 	return w.heap(name, "(Array Int "+w.SortOf(f.Type())+")")
 }
 
@@ -481,4 +486,9 @@ func (w *World) Prelude() string {
 		b.WriteString(a + "\n")
 	}
 	return b.String()
+}
+
+type fieldRef struct {
+	t   types.Type
+	idx int
 }
